@@ -50,13 +50,9 @@ theorem shiftNodeY_U (env env' : Env) (forced : Option Ty) (a : Act) (ha : isShi
   simp only [shiftNodeY, checkShiftY_eq, shiftLeftY_U c0 ⟨k, v, hk, hty, hrv⟩, bind_ok]
   cases hcc : countCheck c1 with
   | ok c1' =>
-    simp only [bind_ok, hty, Ty.untyped, Bool.not_true, Bool.false_eq_true, if_false]
-    have hn : nodeTyY F0 forced true c0 c1' = nodeTyY F0 none true c0 c1' := by
-      cases forced with
-      | none => rfl
-      | some f => simp [nodeTyY, stayUntypedY, isUntypedConstY, hty, hrv, isConstRV, Ty.untyped, binTypeY, Expected.C03.checkFacts]
-    rw [hn]
-    simp only [fixUntypedY, F0_fixSkipsConst, Bool.not_true, Bool.false_and]
+    -- the node is an untyped integer constant whatever was pushed down (287aa9d)
+    simp only [bind_ok, hty, Ty.untyped, Bool.not_true, Bool.false_eq_true, if_false, F0_chk, Expected.C03.checkFacts, if_true,
+      fixUntypedY, F0_fixSkipsConst, Bool.false_and]
   | reject => rfl
   | crash => rfl
   | unm w => rfl
@@ -70,9 +66,8 @@ theorem shiftNodeY_U_out (env : Env) (a : Act) (ha : isShift a = true) (c0 c1 : 
   | crash => rw [hcc] at h; cases h
   | unm w => rw [hcc] at h; cases h
   | ok c1' =>
-  simp only [hcc, bind_ok, hty, Ty.untyped, Bool.not_true, Bool.false_eq_true, if_false] at h
-  have hn : nodeTyY F0 none true c0 c1' = .u k := by simp [nodeTyY, stayUntypedY, binTypeY, hty, Ty.untyped]
-  rw [hn] at h
+  have hisint : (Ty.u k).isInt = true := by rcases hk with rfl | rfl <;> rfl
+  simp only [hcc, bind_ok, hty, Ty.untyped, Bool.not_true, Bool.false_eq_true, if_false, hisint, if_true] at h
   obtain ⟨_, _, h⟩ := bind_eq_ok h
   obtain ⟨rv, hfold, h⟩ := bind_eq_ok h
   obtain ⟨_, _, h⟩ := bind_eq_ok h
